@@ -177,12 +177,39 @@ def run(chk):
                                 side = {ps[0]: inner, ps[1]: outer}
                                 order_ok = side.get(sup_arg) == 'lhs' and side.get(sub_arg) == 'rhs'
                 verdict = (outer, inner, order_ok)
+        quant = 'all'
+        if verdict is None:
+            # iterator form:  X.iter().all(|x| Y.get_by(x, |y, x| is_super_pred_of(..)).is_some())   (`any` = existential outer quantifier)
+            for n in T.walk(arm['b']):
+                if n.get('k') == 'MCall' and n['n'] in ('all', 'any') and n['a'] and T.peel(n['a'][0]).get('k') == 'Closure':
+                    it = T.show(n['r'])
+                    outer = next((side for nm, side in env.items() if nm in it), None)
+                    if outer is None:
+                        continue
+                    clo = T.peel(n['a'][0])
+                    inner = order_ok = None
+                    for c in T.calls(clo['b']):
+                        if c.get('k') == 'MCall' and c['n'] == 'get_by' and T.peel(c['r']).get('k') == 'Local' and T.peel(c['r'])['n'] in env:
+                            inner = env[T.peel(c['r'])['n']]
+                            c2 = T.peel(c['a'][1]) if len(c['a']) > 1 else None
+                            if c2 and c2.get('k') == 'Closure':
+                                ps = [p.get('n') for p in c2['params']]
+                                call = [q for q in T.calls(c2['b']) if (T.cq(q) or '').endswith('is_super_pred_of')]
+                                if call and len(ps) == 2:
+                                    args = [T.show(T.peel(a)) for a in call[0]['a']]
+                                    side = {ps[0]: inner, ps[1]: outer}
+                                    order_ok = side.get(args[0]) == 'lhs' and side.get(args[1]) == 'rhs'
+                    if inner is not None:
+                        verdict = (outer, inner, order_ok)
+                        quant = n['n']
         inst = '(%s,%s)' % (kind, kind)
         if verdict is None or None in verdict[:2]:
             chk.lost.append('is_super_pred_of: cannot recognise the quantifier structure of the %s arm' % inst)
             continue
         outer, inner, order_ok = verdict
-        if outer == want_outer and inner != outer and order_ok:
+        if quant == 'any':
+            chk.bad('C03-R2', 'Context::is_super_pred_of', inst + ':any', 'the %s arm accepts as soon as *one* element of the %s side is matched (`.any`): every element must be' % (inst, outer), FILE, arm['l'])
+        elif outer == want_outer and inner != outer and order_ok:
             chk.ok('C03-R2', inst, sample='%s: for each %s-side element search the %s side with is_super_pred_of(super, sub)' % (inst, outer, inner))
         else:
             chk.bad('C03-R2', 'Context::is_super_pred_of', inst,
